@@ -883,3 +883,33 @@ Proof.
   apply nodupb_sound in H1. split; [exact H1|].
   apply NoDup_Permutation_bis; [exact H1|apply Nat.leb_le; exact H2|apply all_in_iff; exact H3].
 Qed.
+
+(* ------------------------------------------------------------------------------------------ *)
+(** * The footrule bound is attained by the reversed ranking *)
+
+Lemma T_half n : T n = (n * n) / 2 /\ T (S n) = (S n * S n) / 2.
+Proof.
+  induction n as [|n [A B]].
+  - split; vm_compute; reflexivity.
+  - split; [exact B|]. rewrite T_SS, A.
+    replace (S (S n) * S (S n)) with (n * n + (2 * n + 2) * 2) by lia.
+    rewrite Nat.div_add by lia. lia.
+Qed.
+
+Lemma idx_rev o x : NoDup o -> In x o -> idx (rev o) x = length o - 1 - idx o x.
+Proof.
+  intros Hnd Hx. pose proof (proj2 (idx_lt_iff o x) Hx) as Hi.
+  set (i := idx o x) in *. set (n := length o) in *.
+  assert (E : x = nth (n - S i) (rev o) 0%N).
+  { rewrite rev_nth by (fold n; lia). fold n.
+    replace (n - S (n - S i)) with i by lia. symmetry. apply nth_idx. exact Hx. }
+  rewrite E at 1. rewrite idx_nth; [lia|apply NoDup_rev; exact Hnd|rewrite rev_length; fold n; lia].
+Qed.
+
+Lemma footrule_bound_tight o : NoDup o -> footrule_num o (rev o) = (length o * length o) / 2.
+Proof.
+  intros Hnd. rewrite footrule_num_sum by exact Hnd.
+  rewrite <- (proj1 (T_half (length o))). unfold T. rewrite <- sum_over_idx by exact Hnd.
+  apply sum_over_ext_in. intros x Hx. rewrite idx_rev by assumption.
+  pose proof (proj2 (idx_lt_iff o x) Hx). unfold absdiff. lia.
+Qed.
